@@ -166,6 +166,8 @@ def build(chk):
     c_solveWall(chk)
     c_deflag_entry(chk)
     c_manager(chk)
+    c_frames(chk)
+    c_detonation(chk)
 
 
 def c_solveWall(chk):
@@ -382,3 +384,182 @@ def c_manager(chk):
         chk.vc(f"manager.solveWall.fresh-solver-per-call.{i}", p.pc,
                sym.to_sym(len(s_) == 1 and len(en) == 1 and s_[0]["args"][0] is p.state["settings"] and en[0]["obj"].label == "fresh-eom"
                           and en[0]["args"][0] == real("initialWallThickness") and not stores), func=fn2, kind="frame")
+
+
+def c_frames(chk):
+    """The frame that the contract of wallPressure assumes, checked on the real AST (wgvc.effects): through all methods of the
+    EOM that wallPressure can reach, the only attributes of the EOM that are written are the two convergence flags; the collaborators it
+    calls methods on are the per-call grid and Boltzmann solver (fresh objects, see setupWallSolver), hydrodynamics.findHydroBoundaries
+    (whose own frame is the success flag, never read here), and read-only thermodynamics / potential callbacks.  The free-energy objects
+    are evaluated inside their table (clamped argument), so their adaptive interpolation state is not touched."""
+    from wgvc.effects import frame_of
+    from wgvc import source
+    fn = f"{EOMQ}.wallPressure"
+    chk.under_contract(MODULE, "EOM.wallPressure")
+    f = frame_of(MODULE, "EOM", "wallPressure")
+    for m in sorted(f["methods"]):
+        chk.under_contract(MODULE, f"EOM.{m}")
+    chk.vc("wallPressure.frame.attributes-written", [], sym.to_sym(f["stores"] <= {"successTemperatureProfile", "successWallPressure"} and not f["unresolved"]),
+           func=fn, kind="frame", meta={"stores": sorted(f["stores"])})
+    allowed = {"boltzmannSolver.getDeltas", "boltzmannSolver.setBackground", "grid.changePositionFalloffScale", "grid.getCompactificationDerivatives",
+               "hydrodynamics.findHydroBoundaries", "thermo.effectivePotential.derivField", "thermo.effectivePotential.derivT",
+               "thermo.effectivePotential.evaluate", "thermo.freeEnergyHigh", "thermo.freeEnergyLow", "thermo.freeEnergyHigh.interpolationRangeMax",
+               "thermo.freeEnergyHigh.interpolationRangeMin", "thermo.freeEnergyLow.interpolationRangeMax", "thermo.freeEnergyLow.interpolationRangeMin"}
+    chk.vc("wallPressure.frame.collaborators", [], sym.to_sym(f["collaborator_calls"] <= allowed), func=fn, kind="frame",
+           meta={"calls": sorted(f["collaborator_calls"])})
+    h = frame_of("hydrodynamics", "Hydrodynamics", "findHydroBoundaries")
+    chk.vc("findHydroBoundaries.frame.attributes-written", [], sym.to_sym(h["stores"] <= {"success"} and not h["unresolved"]),
+           func="hydrodynamics.Hydrodynamics.findHydroBoundaries", kind="frame", meta={"stores": sorted(h["stores"])})
+    s_ = frame_of(MODULE, "EOM", "solveWall")
+    chk.vc("solveWall.frame.attributes-written", [],
+           sym.to_sym(s_["stores"] <= {"successTemperatureProfile", "successWallPressure", "pressAbsErrTol"} and not s_["unresolved"]),
+           func=f"{EOMQ}.solveWall", kind="frame", meta={"stores": sorted(s_["stores"])})
+    # the free-energy tables are evaluated at a clamped temperature (inside the table: no direct evaluation, no adaptive update)
+    lo, hi = {"Low": real("rangeMinLow"), "High": real("rangeMinHigh")}, {"Low": real("rangeMaxLow"), "High": real("rangeMaxHigh")}
+    seen = []
+
+    def fe(which):
+        def call(it, so, a, k):
+            it.event(kind="contract-call", name=f"freeEnergy{which}", args=list(a))
+            return SymObj("FreeEnergyValueType", "freeEnergy", label="fev", attrs={"fieldsAtMinimum": Opaque(f"vev{which}"), "veffValue": real(f"veff{which}")})
+        return call
+
+    def stop(it, so, a, k):
+        raise PathEnd()
+    reg = {"Hydrodynamics.findHydroBoundaries": lambda it, so, a, k: (real("c1"), real("c2"), real("Tplus"), real("Tminus"), real("velocityMid")),
+           "EOM._updateGrid": stop,
+           "Polynomial.__new__": lambda it, cref, a, k: SymObj("Polynomial", "polynomial", label="poly"),
+           "BoltzmannDeltas.__new__": lambda it, cref, a, k: SymObj("BoltzmannDeltas", "containers", label="deltas"),
+           "BoltzmannResults.__new__": lambda it, cref, a, k: SymObj("BoltzmannResults", "results", label="br")}
+
+    def mk(it):
+        eom = make_eom()
+        th = eom.attrs["thermo"]
+        for which in ("Low", "High"):
+            feo = SymObj("FreeEnergy", "freeEnergy", label=f"freeEnergy{which}")
+            th.attrs[f"freeEnergy{which}"] = feo
+        it.registry = dict(it.registry)
+        eom.attrs.update(particles=[], grid=SymObj("Grid3Scales", "grid3Scales", label="grid", attrs={"M": 3, "N": 3}), forceImproveConvergence=False,
+                         pressAbsErrTol=real("pressAbsErrTol"))
+        for which in ("Low", "High"):
+            it.assume(Le(lo[which], hi[which]))
+        return eom, [real("vw"), params("in")], {}, {"eom": eom}
+    regs = dict(reg)
+    regs["FreeEnergy.__call__"] = lambda it, so, a, k: fe(so.label.replace("freeEnergy", ""))(it, so, a, k)
+    regs["FreeEnergy.interpolationRangeMax"] = lambda it, so, a, k: hi[so.label.replace("freeEnergy", "")]
+    regs["FreeEnergy.interpolationRangeMin"] = lambda it, so, a, k: lo[so.label.replace("freeEnergy", "")]
+    paths = chk.summarize(MODULE, "EOM.wallPressure", mk, registry=regs, record=False)
+    n = 0
+    for i, p in enumerate(paths):
+        for e in p.events:
+            if e.get("kind") == "contract-call" and str(e.get("name", "")).startswith("freeEnergy"):
+                which = e["name"].replace("freeEnergy", "")
+                n += 1
+                chk.vc(f"wallPressure.free-energy-evaluated-inside-table.{which}.{i}", p.pc,
+                       And(Ge(e["args"][0], lo[which]), Le(e["args"][0], hi[which])), func=fn)
+    if n < 2:
+        chk.undecided.append("wallPressure: free-energy evaluations not reached")
+
+
+def c_detonation(chk):
+    """findWallVelocityDetonation: every solution in the returned list comes from solveWall on a step [vw2, vw3] over which the pressure
+    goes from <= 0 to >= 0 (with the two pressure evaluations handed over); when no step brackets a root exactly one result without a
+    velocity is returned, labelled RUNAWAY only if the pressure was non-positive at the start of the window and - by the loop invariant -
+    at every velocity evaluated afterwards, including the top of the searched window; no unsuccessful label other than ERROR exists."""
+    fn = f"{EOMQ}.findWallVelocityDetonation"
+    vmin, vmax = real("vmin.det"), real("vmax.det")
+    reg = registry()
+    reg["EOM.solveWall"] = lambda it, so, a, k: (it.event(kind="contract-call", name="solveWall", args=list(a)),
+                                                  SymObj("WallGoResults", "results", label=it.fresh_name("solution")))[1]
+    ext = dict(stubs.EXTERNALS)
+    # helpers.nextStepDeton (quad/erf based step-size heuristic): abstracted as "returns some velocity"
+    def next_step(it, so, a, k):
+        r = it.fresh_real("nextStep")
+        it.assume(And(Ge(r, a[1]), Le(r, a[7])))      # assumed contract: a velocity between pos2 and posMax
+        return r
+    reg["nextStepDeton"] = next_step
+    ext["numpy.std"] = lambda it, a, k: it.fresh_real("std")
+
+    def last_rec(it):
+        return it.__dict__.get("_wp_calls", [])[-1]
+
+    def inv(it, envv):
+        calls = it.__dict__.get("_wp_calls", [])
+        p2 = envv.lookup("pressure2")
+        rec = next((r for r in reversed(calls) if r["P"] is p2), None)
+        results = envv.lookup("listResults")
+        empty = len(results) == 0
+        fs = [sym.to_sym(rec is not None), Eq(rec["vw"], envv.lookup("vw2")) if rec else sp.false, Ge(envv.lookup("vw2"), vmin)]
+        if empty:
+            # no sign change so far: a start at non-positive pressure keeps every later pressure non-positive
+            fs.append(Implies(Le(envv.lookup("pressureIni"), 0), Le(p2, 0)))
+            # ... and a non-negative pressure is only ever carried to a velocity strictly below the top of the window
+            # (reaching the top with positive pressure leaves the loop before evaluating there)
+            fs.append(Implies(And(Ge(p2, 0), Gt(envv.lookup("vw2"), vmin)), Lt(envv.lookup("vw2"), vmax)))
+        return fs
+    state = {}
+
+    def ghost(it):
+        if state.get("owner") is not it:
+            n = len(it.__dict__.setdefault("_wp_cache", {}))
+            v = it.fresh_real("vw2.k")
+            rec = dict(n=n, vw=v, P=it.fresh_real(f"P{n}"), wp=params(f"r{n}"), br=bres(f"r{n}"), bb=Opaque(f"bb{n}"), hr=Opaque(f"hr{n}"),
+                       okT=it.fresh_bool(f"okT{n}"), okP=it.fresh_bool(f"okP{n}"), args={})
+            it._wp_cache[("ghost", n)] = rec
+            it.__dict__.setdefault("_wp_calls", []).append(rec)
+            state.update(owner=it, rec=rec, v=v, empty=it.decide_free())
+        return state
+    havoc = {
+        "vw2": lambda it: ghost(it)["v"], "pressure2": lambda it: ghost(it)["rec"]["P"],
+        "wallPressureResults2": lambda it: (ghost(it)["rec"]["P"], ghost(it)["rec"]["wp"], ghost(it)["rec"]["br"], ghost(it)["rec"]["bb"], ghost(it)["rec"]["hr"]),
+        "wallPressureResults1": lambda it: Opaque("results1"), "vw1": lambda it: it.fresh_real("vw1.k"), "pressure1": lambda it: it.fresh_real("pressure1.k"),
+        "wallParams2": lambda it: params("k2"), "list2ndDeriv": lambda it: [], "listResults": lambda it: [] if ghost(it)["empty"] else [Opaque("earlier solution")],
+        "std2ndDeriv": lambda it: it.fresh_real("std2"), "n": lambda it: 0, "vw3": lambda it: it.fresh_real("vw3.k"),
+        "pressure3": lambda it: it.fresh_real("pressure3.k"), "_": lambda it: Opaque("_"),
+    }
+    loops = {("EOM.findWallVelocityDetonation", 0): loop_spec(inv, havoc)}
+
+    def mk(it):
+        eom = make_eom()
+        eom.attrs["hydrodynamics"].attrs["template"].attrs["epsilon"] = real("template.epsilon")
+        for c in (Gt(vmin, vJ), Lt(vmin, vmax), Lt(vmax, 1), Gt(vJ, 0), Gt(real("Tnucl"), 0)):
+            it.assume(c)
+        return eom, [vmin, vmax], {}, {"eom": eom}
+    paths = chk.summarize(MODULE, "EOM.findWallVelocityDetonation", mk, registry=reg, externals=ext, loop_specs=loops,
+                          config={"max_unroll": 3})
+    kinds = set()
+    for i, p in enumerate(sel(paths)):
+        out = p.value
+        calls = [e for e in p.events if e.get("name") == "solveWall"]
+        wp = LAST(p)
+        if isinstance(out, list) and out and all(isinstance(o, SymObj) and o.cls == "WallGoResults" and "solutionType" in o.attrs for o in out):
+            # no bracketing step: one result without a velocity
+            r = out[0]
+            t = r.attrs["solutionType"].name
+            kinds.add(t)
+            chk.vc(f"detonation.no-solution.single-result-without-velocity.{i}", p.pc,
+                   sym.to_sym(len(out) == 1 and r.attrs.get("wallVelocity") is None and r.attrs.get("success") is True), func=fn)
+            if t == "RUNAWAY":
+                pini = wp[0]["P"]
+                plast = wp[-1]["P"]
+                chk.vc(f"detonation.runaway.pressure-nonpositive-from-start-to-top.{i}", p.pc, And(Le(pini, 0), Le(plast, 0)), func=fn)
+            continue
+        if isinstance(out, list) and calls:
+            kinds.add("solutions")
+            # the step handed to solveWall brackets a sign change of the pressure, with the evaluations made at its ends
+            for j, c in enumerate(calls):
+                a = c["args"]
+                lo_v, hi_v, _, res_lo, res_hi = a[:5]
+                p_lo = res_lo[0] if isinstance(res_lo, tuple) else None
+                p_hi = res_hi[0] if isinstance(res_hi, tuple) else None
+                ok = p_lo is not None and p_hi is not None
+                chk.vc(f"detonation.solution-step-brackets-sign-change.{i}.{j}", p.pc,
+                       And(sym.to_sym(bool(ok)), Le(p_lo, 0) if ok else sp.false, Ge(p_hi, 0) if ok else sp.false, Lt(lo_v, hi_v)), func=fn)
+                recs_hi = [r for r in wp if r["P"] is p_hi]
+                chk.vc(f"detonation.solution-step-upper-evaluation-at-upper-end.{i}.{j}", p.pc,
+                       And(sym.to_sym(bool(recs_hi)), Eq(recs_hi[0]["vw"], hi_v) if recs_hi else sp.false), func=fn)
+    if not {"RUNAWAY", "solutions"} <= kinds:
+        chk.undecided.append(f"findWallVelocityDetonation: path classes {sorted(kinds)}")
+    for p in sel(paths, "raise"):
+        if p.exc.cls != "AssertionError":
+            chk.undecided.append(f"findWallVelocityDetonation raises {p.exc.cls}")
